@@ -648,6 +648,26 @@ func (t *tr) bls(i int, rnd *choice.Src) {
 		g3, err := crypto.BLSReconstructThresholdSignature(n, th, sh3, who3)
 		t.add("thr.sig.reordered", g3)
 		t.addf("thr.err", "%v", err)
+		// shares the stateless call does not validate: points of E1 outside G1 (random, and a
+		// genuine share shifted by a small-order point), the identity, a negated share. Whatever
+		// the combination is, it is the same in every build.
+		ident := make([]byte, 48)
+		ident[0] = 0xC0
+		neg := append([]byte(nil), sh[0]...)
+		neg[0] ^= 0x20
+		bad := [][]byte{curve.G1NonSubgroup(rnd), ident, neg}
+		if b, err := curve.G1PlusTorsion(sh[0], rnd.Intn(len(curve.SmallPrimesE1)), 1); err == nil {
+			bad = append(bad, b)
+		}
+		for k, b := range bad {
+			for _, pos := range []int{0, th} {
+				sh4 := append([]crypto.Signature(nil), sh[:th+1]...)
+				sh4[pos] = b
+				g4, err := crypto.BLSReconstructThresholdSignature(n, th, sh4, who[:th+1])
+				t.add(fmt.Sprintf("thr.sig.unvalidated-share.%d.%d", k, pos), g4)
+				t.addf("thr.err", "%v", err)
+			}
+		}
 	}
 	// many distinct messages and keys (more pairings than one Miller-loop batch)
 	{
